@@ -89,6 +89,7 @@ const char* ParseOffset(const char* p, int min_hour, int max_hour, int sign,
 
 // datetime = ( Jn | n | Mm.w.d ) [ / offset ]
 const char* ParseDateTime(const char* p, PosixTransition* res) {
+  bool have_date = false;
   if (p != nullptr && *p == ',') {
     if (*++p == 'M') {
       int month = 0;
@@ -101,6 +102,7 @@ const char* ParseDateTime(const char* p, PosixTransition* res) {
             res->date.m.month = static_cast<std::int_fast8_t>(month);
             res->date.m.week = static_cast<std::int_fast8_t>(week);
             res->date.m.weekday = static_cast<std::int_fast8_t>(weekday);
+            have_date = true;
           }
         }
       }
@@ -109,15 +111,18 @@ const char* ParseDateTime(const char* p, PosixTransition* res) {
       if ((p = ParseInt(p + 1, 1, 365, &day)) != nullptr) {
         res->date.fmt = PosixTransition::J;
         res->date.j.day = static_cast<std::int_fast16_t>(day);
+        have_date = true;
       }
     } else {
       int day = 0;
       if ((p = ParseInt(p, 0, 365, &day)) != nullptr) {
         res->date.fmt = PosixTransition::N;
         res->date.n.day = static_cast<std::int_fast16_t>(day);
+        have_date = true;
       }
     }
   }
+  if (!have_date) p = nullptr;  // a missing or truncated date is an error
   if (p != nullptr) {
     res->time.offset = 2 * 60 * 60;  // default offset is 02:00:00
     if (*p == '/') p = ParseOffset(p + 1, -167, 167, 1, &res->time.offset);
